@@ -2,8 +2,11 @@
    A case is (termination delay d, the behaviour the fake agent was given,
    what was observed of one real Stream.Close on it).  Times in ms.
    Verdict bits: 1 = the observation contradicts the model (a signal came
-   earlier than the model's waits allow, or, where the prediction is robust
-   against 800 ms of lateness, another stage or return time than the model's);
+   earlier than the model's waits allow; Close escalated further than the model
+   does for a process 900 ms slower, or less far than the model does with
+   timers 900 ms late; it returned before the punctual model, or more than 4 s
+   after the latest prediction -- the stage and upper-bound comparisons only in
+   cases where the measured scheduling lateness stayed below 250 ms);
    2 = check_C35 fails: Close did not return, or the child was not gone when it
    returned; 8 = ill-formed case. *)
 From Coq Require Import List NArith Bool.
@@ -16,8 +19,9 @@ Definition acase := (N * proc * obs)%type.
 (* the fake agents die at once when killed *)
 Definition Pr (a b c : option N) : proc :=
   {| p_self := a; p_stdin := b; p_term := c; p_kill := Some 0 |}.
-Definition Ob (r dd : bool) (t : N) (e tm : option N) (k : bool) : obs :=
-  {| ob_returned := r; ob_dead := dd; ob_ret := t; ob_eof := e; ob_term := tm; ob_killed := k |}.
+Definition Ob (r dd : bool) (t : N) (e tm : option N) (k : bool) (nz : N) : obs :=
+  {| ob_returned := r; ob_dead := dd; ob_ret := t; ob_eof := e; ob_term := tm; ob_killed := k;
+     ob_noise := nz |}.
 Definition T := true.
 Definition N_ := false.
 Definition No : option N := None.
@@ -25,7 +29,7 @@ Definition So (x : N) : option N := Some x.
 
 Definition agent_verdict (c : acase) : N :=
   let '(d, p, o) := c in
-  (if corr_C35 20 800 3000 d p o then 0 else 1)
+  (if corr_C35 20 900 4000 250 d p o then 0 else 1)
   + (if check_C35 o then 0 else 2).
 
 (* the case files open N_scope (the times are N literals), so indices and
